@@ -96,7 +96,7 @@ Fixpoint mixb (i : N) (ps : list N) (new Fz : list N) : list N :=
   | [] => []
   | f :: Fz' =>
       (match new with
-       | n :: _ => if i <? nth (N.to_nat (i / SECT)) ps 0 then n else f
+       | n :: _ => if i <? nth (N.to_nat (N.shiftr i 9)) ps 0 then n else f
        | [] => f
        end) :: mixb (i + 1) ps (tl new) Fz'
   end.
